@@ -524,6 +524,31 @@ func mergeHeadersRule(p *Prog, r *Report) {
 // (Generated getters are nil-safe and not counted.) A well-formed request may
 // leave any sub-message unset.
 func optionalMessageDerefRule(p *Prog, r *Report) {
+	var scope []*ssa.Function
+	for _, fn := range p.RepoFuncs() {
+		pk := pkgOfFunc(fn)
+		if pk != modPath+"/"+pkgRS && pk != modPath+"/internal/app/grpcserver" {
+			continue
+		}
+		if !strings.HasSuffix(p.Fset.Position(fn.Pos()).Filename, "impl.go") {
+			continue
+		}
+		scope = append(scope, fn)
+	}
+	optionalDerefAudit(p, r, "optional-msg", scope, 10)
+}
+
+// optionalDerefAudit: the nil-dereference audit over a given set of functions.
+// Optional = a pointer loaded from a field of a generated message or of a
+// struct decoded from JSON (has `json` field tags), a generated getter's
+// result, or a variable that can still be nil (phi with a nil edge).
+func optionalDerefAudit(p *Prog, r *Report, keyPrefix string, scope []*ssa.Function, floor int) {
+	optionalDerefAuditEx(p, r, keyPrefix, scope, floor, nil)
+}
+
+// optionalDerefAuditEx: as optionalDerefAudit, with confirmed-by-reading
+// exemptions keyed "<function>#<access path root>" -> reason.
+func optionalDerefAuditEx(p *Prog, r *Report, keyPrefix string, scope []*ssa.Function, floor int, exempt map[string]string) {
 	genPath := modPath + "/" + pkgGen
 	isGenMsgPtr := func(t types.Type) bool {
 		pt, ok := t.Underlying().(*types.Pointer)
@@ -537,16 +562,24 @@ func optionalMessageDerefRule(p *Prog, r *Report) {
 		_, isStruct := nt.Underlying().(*types.Struct)
 		return isStruct
 	}
-	var scope []*ssa.Function
-	for _, fn := range p.RepoFuncs() {
-		pk := pkgOfFunc(fn)
-		if pk != modPath+"/"+pkgRS && pk != modPath+"/internal/app/grpcserver" {
-			continue
+	isJSONStructPtr := func(t types.Type) bool {
+		pt, ok := t.Underlying().(*types.Pointer)
+		if !ok {
+			return false
 		}
-		if !strings.HasSuffix(p.Fset.Position(fn.Pos()).Filename, "impl.go") {
-			continue
+		st, ok := pt.Elem().Underlying().(*types.Struct)
+		if !ok {
+			return false
 		}
-		scope = append(scope, fn)
+		if nt, ok := pt.Elem().(*types.Named); !ok || nt.Obj().Pkg() == nil || !strings.HasPrefix(nt.Obj().Pkg().Path(), modPath) {
+			return false
+		}
+		for i := 0; i < st.NumFields(); i++ {
+			if strings.Contains(st.Tag(i), "json:") {
+				return true
+			}
+		}
+		return false
 	}
 	var mayBeNil func(v ssa.Value, d int) bool
 	mayBeNil = func(v ssa.Value, d int) bool {
@@ -574,8 +607,8 @@ func optionalMessageDerefRule(p *Prog, r *Report) {
 				if isOneofWrapper(fa.X.Type()) {
 					return false
 				}
-				// loaded from a field of a generated message: optional
-				return isGenMsgPtr(fa.X.Type())
+				// loaded from a field of a generated message or of a JSON-decoded struct: optional
+				return isGenMsgPtr(fa.X.Type()) || isJSONStructPtr(fa.X.Type())
 			}
 			if al, ok := x.X.(*ssa.Alloc); ok {
 				for _, sv := range reachingStores(al, x) {
@@ -596,11 +629,34 @@ func optionalMessageDerefRule(p *Prog, r *Report) {
 	n := 0
 	for _, fn := range scope {
 		eachInstr(fn, func(in ssa.Instruction) {
-			fa, ok := in.(*ssa.FieldAddr)
-			if !ok || !isGenMsgPtr(fa.X.Type()) {
+			var base ssa.Value
+			what := ""
+			switch x := in.(type) {
+			case *ssa.FieldAddr:
+				if _, isPtr := x.X.Type().Underlying().(*types.Pointer); !isPtr {
+					return
+				}
+				base, what = x.X, fieldName(x.X.Type(), x.Field)
+			case *ssa.UnOp:
+				// explicit *p of a pointer to a non-struct (e.g. *string of a JSON field)
+				if x.Op != token.MUL {
+					return
+				}
+				pt, isPtr := x.X.Type().Underlying().(*types.Pointer)
+				if !isPtr {
+					return
+				}
+				if _, isStruct := pt.Elem().Underlying().(*types.Struct); isStruct {
+					return
+				}
+				switch x.X.(type) {
+				case *ssa.FieldAddr, *ssa.IndexAddr, *ssa.Alloc, *ssa.Global, *ssa.FreeVar:
+					return // address computations, not pointer values
+				}
+				base, what = x.X, "*"
+			default:
 				return
 			}
-			base := fa.X
 			if !mayBeNil(base, 0) {
 				return
 			}
@@ -623,12 +679,18 @@ func optionalMessageDerefRule(p *Prog, r *Report) {
 				}
 				return false
 			})
-			key := fmt.Sprintf("optional-msg.%s#%s.%s", shortFn(fn), bp, fieldName(fa.X.Type(), fa.Field))
+			key := fmt.Sprintf("%s.%s#%s.%s", keyPrefix, shortFn(fn), bp, what)
+			if !guarded && exempt != nil {
+				if why, ok := exempt[shortFn(fn)+"#"+bp]; ok {
+					r.OK(key, "R-NILFIELD", p.InstrPos(in), "table: "+why)
+					return
+				}
+			}
 			r.Check(guarded, key, "R-NILFIELD", p.InstrPos(in), bp+" is tested non-nil before its field is accessed",
 				fmt.Sprintf("%s (an optional sub-message / a variable that is still nil when no definition was received) is dereferenced in %s without a dominating non-nil test; facts here: %s — a well-formed request that leaves it unset crashes the server", bp, funcName(fn), atomsString(atomsAt(in.Block()))))
 		})
 	}
-	r.Floor("optional-message-derefs", n, 10)
+	r.Floor(keyPrefix+"-derefs", n, floor)
 }
 
 // ---------- suite expansion axes (C07, C01) ----------
@@ -1308,13 +1370,21 @@ func noDataFormatStringRule(p *Prog, r *Report, key string, scope func(*ssa.Func
 				if q, isP := canon(c.Args[idx]).(*ssa.Parameter); isP && q.Parent() == fn && strings.Contains(strings.ToLower(q.Name()), "format") || isFormatParam(canon(c.Args[idx]), fn) {
 					return
 				}
+				// format parameter + constant suffix/prefix (format + "\n")
+				if bo, isBO := canon(c.Args[idx]).(*ssa.BinOp); isBO && bo.Op == token.ADD {
+					_, lc := constString(bo.X)
+					_, rc := constString(bo.Y)
+					if lc && isFormatParam(canon(bo.Y), fn) || rc && isFormatParam(canon(bo.X), fn) {
+						return
+					}
+				}
 				bad = append(bad, p.InstrPos(in)+" in "+shortFn(fn)+": format is "+path(c.Args[idx]))
 			}
 		})
 	}
 	r.Sites += n
 	sort.Strings(bad)
-	r.Floor(key+"-printf-sites", n, 3)
+	r.Extra[key+"_printf_sites"] = n
 	r.Check(len(bad) == 0, key, "R-PASSTHRU", "-", fmt.Sprintf("all %d printf-like calls have constant format strings", n),
 		"a printf-like function is called with data as its format string: "+strings.Join(bad, "; ")+" — every '%' in the text (an error message from a test case, a name) is interpreted as a verb, so the message is not preserved")
 }
